@@ -117,6 +117,24 @@ def check_one(t, q, tag):
         t.violation("remove_empty_metadata:frame (argument unmodified)",
                     "the AST handed in was modified in place", src, before[:200],
                     dump(arg)[:200], replay)
+        return
+    # the result belongs to the caller: what a consumer does to it (back ends cut the wrappers
+    # out in place with extract_metadata) must not show in a LATER call on the same query object
+    # (seed C15_f: results memoised per query object and handed out again)
+    try:
+        extract_metadata(got)
+        for x in ast.walk(got):
+            if isinstance(x, ast.Call):
+                x.args = list(reversed(x.args))
+    except Exception:
+        pass
+    got2 = remove_empty_metadata(arg)
+    t.contract("remove_empty_metadata: a second call on the same object gives the same answer")
+    if not specrt.same(got2, exp) or dump(arg) != before:
+        t.violation("remove_empty_metadata:ensures same(result, drop_empty_metadata(a))",
+                    "a second call on the same query object, after the first result was edited "
+                    "by its consumer, returns something else", src, unparse(exp), unparse(got2),
+                    dict(replay, step="second call"))
 
 
 def run(t):
